@@ -20,15 +20,15 @@ import (
 
 // frozen, keyed by function + ranged expression.
 var mapOrderFrozen = map[string]string{
-	"github.com/dave/dst.NewPackage files":                      "fork of go/ast.NewPackage: same map-order dependence as upstream (which file's package name / which redeclaration error comes first); kept identical by R-FORK",
-	"github.com/dave/dst.NewPackage file.Scope.Objects":         "fork of go/ast.NewPackage (see above)",
-	"github.com/dave/dst.NewPackage pkg.Data.(*Scope).Objects":  "fork of go/ast.NewPackage (see above)",
-	"github.com/dave/dst.(*Scope).String s.Objects":             "debug string, identical to go/ast.Scope.String",
-	"github.com/dave/dst.Walk n.Files":                          "identical to go/ast.Walk: package files are walked in map order (C13 compares with upstream)",
+	"github.com/dave/dst.NewPackage files":                                    "fork of go/ast.NewPackage: same map-order dependence as upstream (which file's package name / which redeclaration error comes first); kept identical by R-FORK",
+	"github.com/dave/dst.NewPackage file.Scope.Objects":                       "fork of go/ast.NewPackage (see above)",
+	"github.com/dave/dst.NewPackage pkg.Data.(*Scope).Objects":                "fork of go/ast.NewPackage (see above)",
+	"github.com/dave/dst.(*Scope).String s.Objects":                           "debug string, identical to go/ast.Scope.String",
+	"github.com/dave/dst.Walk n.Files":                                        "identical to go/ast.Walk: package files are walked in map order (C13 compares with upstream)",
 	"github.com/dave/dst/decorator.(*fileDecorator).addNodeFragments n.Files": "fragments of different files have disjoint position ranges and the list is stable-sorted by position afterwards",
 	"github.com/dave/dst/decorator.(*fileDecorator).fragment val.Files":       "per-file comment/newline fragments; the list is stable-sorted by position afterwards (cross-file line filtering is checked by R-FILESCOPE)",
 	"github.com/dave/dst/decorator.(*FileRestorer).restoreNode n.Files":       "restoring a dst.Package is unreachable from the public API (RestoreFile takes *dst.File; object Decl/Data nodes are never packages)",
-	"github.com/dave/dst/decorator.Load pkg.Imports":                         "convert is memoised by package (dpkgs) and the result is stored under the range key",
+	"github.com/dave/dst/decorator.Load pkg.Imports":                          "convert is memoised by package (dpkgs) and the result is stored under the range key",
 }
 
 type mapRange struct {
